@@ -18,7 +18,7 @@ import numpy as np
 from harness import core, gen
 from harness.core import F, Cut
 
-PROPS_MODULES = ["Pdq.Props.C08"]
+PROPS_MODULES = ["Pdq.Props.C08", "Pdq.Props.C08Embed", "Pdq.Props.SqrtRefine"]
 LEVEL = "proof"
 
 TOL = 2e-11  # relative, in the scale-aware metric described in DESIGN §2.3 (observed max on clean tree ~1e-13)
